@@ -350,3 +350,35 @@ def _(h):
     snap = Snapshot(h, [X, Y])
     X.interp(0.5, start=Y)
     snap.check()
+
+
+@claim('base-vec:removesmall')
+def _(h):
+    v = h.vec('v', 3, -1e-13, 1e-13)
+    for form in ('array1d', 'row'):
+        arg = c15.FORMS[form](h, v)
+        r1 = guarded(h, base.removesmall, [arg])
+        r2 = guarded(h, base.removesmall, [arg])
+        same_result(h, f'{form}: twice the same', r1, r2)
+
+
+@claim('printing-does-not-modify')
+def _(h):
+    """repr / str / printline of objects whose matrices contain entries below the display threshold (concrete tiny entries:
+    formatting needs floats; the symbolic part is the translation)"""
+    import math
+    T = base.trotx(math.pi / 2)          # holds 6.1e-17 entries
+    X = SE3(T, check=False)
+    before = T.copy()
+    from symreal.core import Ctx
+    saved, Ctx.cur = Ctx.cur, None          # formatting runs on plain floats (no symbolic allocation while printing)
+    try:
+        repr(X); str(X); X.printline(file=None)
+        tw = Twist3(np.array([1.0, 0.0, 1e-17, 0.0, 0.0, 1.0]))
+        tb = tw.S.copy()
+        str(tw); repr(tw)
+    finally:
+        Ctx.cur = saved
+    k = h.real('k', 1, 2)
+    h.eq('SE3 matrix unchanged by repr/str', X.A * k, before * k, exact_only=True)
+    h.eq('Twist3 unchanged by str', tw.S * k, tb * k, exact_only=True)
